@@ -133,6 +133,8 @@ def generate(check, rng, tier, run_index):
         ops.insert(0, {'op': 'write', 'k': 1})
     case = {'check': check, 'fmt': fmt, 'n_atoms': n_atoms, 'cell': cell, 'with_time': with_time,
             'seed': rng.below(1 << 30), 'mode': mode, 'ops': ops}
+    if fmt == 'nc' and rng.chance(0.4):
+        case['nc_backend'] = 'scipy'
     if tier == 'thorough' and CAPS[fmt]['live'] and rng.chance(0.04):
         case['real_kill_at'] = rng.below(len(ops))
     return case
@@ -290,6 +292,25 @@ def _chunk(src, ids, with_cell, with_time):
 
 
 def execute(check, case, workdir):
+    import sys
+    hide = case.get('nc_backend') == 'scipy'
+    saved = sys.modules.get('netCDF4', 'absent')
+    if hide:
+        sys.modules['netCDF4'] = None
+    try:
+        res = _execute(check, case, workdir)
+        if hide:
+            res.probe('netcdf_scipy_backend')
+        return res
+    finally:
+        if hide:
+            if saved == 'absent':
+                sys.modules.pop('netCDF4', None)
+            else:
+                sys.modules['netCDF4'] = saved
+
+
+def _execute(check, case, workdir):
     import warnings
     warnings.simplefilter('ignore')
     import mdtraj as md
